@@ -9,6 +9,7 @@ mod gen;
 mod json;
 mod l2;
 mod probe;
+mod ties;
 mod marathon;
 mod spawnathon;
 mod minimize;
@@ -123,6 +124,9 @@ fn cmd_l2(a: &Args) -> Result<i32, String> {
         .num("probes_judged", rep.probe.judged as usize)
         .num("probes_skipped_no_value", rep.probe.skipped as usize)
         .num("probe_evals", rep.probe.evals as usize)
+        .num("tie_problems", rep.ties.problems as usize)
+        .num("tie_problems_judged", rep.ties.judged as usize)
+        .num("tie_evals", rep.ties.evals as usize)
         .raw(
             "probes_judged_per_route",
             format!(
